@@ -8,6 +8,7 @@ claimed = {
  "C04": ("bridge", "exploration", "5 C04", "seeded multi-user multi-token bridge histories; conservation equations per token group, per-step balance deltas, withdrawability, evaluated after every step on committed state"),
  "C05": ("bridge", "exploration", "5 C05", "seeded send/cancel/fee-bump/batch/timeout/relay races; observational life-cycle model of every outgoing transfer and bridge call checked against raw pool/batch/call stores after every step"),
  "C06": ("bridge", "exploration", "5 C06", "seeded external-height/observation-lag/relayer schedules (late, out of order, after cancel); executable model of FxBridgeLogic.sol is the judge for never-both; timeout-proved on observed heights"),
+ "C08": ("evm", "exploration", "5 C08", "seeded histories of conversions (messages, precompiles, inbound claims), governance toggles and agent contracts that touch a token directly and convert it through a precompile in the same transaction; escrow-vs-supply equations per pair kind, balance sums, index consistency after every step"),
  "C09": ("evm", "fault_enumeration", "5 C09", "generated agent-contract call trees (hand-assembled EVM bytecode) x revert placement x gas ladder; the return-data bitmap of the top-level call is the kept set K; the full store dump after the run must equal the dump after executing exactly the kept calls (mask replay) on a branch of the same state"),
  "C10": ("evm", "exploration", "5 C10", "victims that never sign vs attacker EOAs/contracts (incl. contracts the victim calls), forbidden call kinds, static frames, governance switches; victims' portfolios must not shrink except through share allowances"),
  "C11": ("evm", "exploration", "5 C11", "seeded staking-precompile histories incl. self transfers, reward blocks and validator downtime slashing; per-transfer share deltas, all registered crisis invariants on a branch after every step, exit liveness at end of run"),
@@ -26,6 +27,7 @@ notes = {
  "C04": "FX is checked on the eth module escrow account (FX is also minted/staked); bridged coin checked on user-held supply; ERC-20 side read through read-only EVM calls",
  "C05": "the model never predicts which transfers a batch selects; refund exactness is checked in single-transaction blocks",
  "C06": "the external contract is a Go model written from FxBridgeLogic.sol (height < timeout, nonce rules, signature power), not the Solidity code itself",
+ "C08": "ERC-20 balances are summed over every address the run knows (users, contracts, module accounts, external receivers); an unknown holder only makes the sum smaller and is counted by a probe; the nested-state-DB defect is a recorded known finding",
  "C09": "the reference is the same contracts executed with only the kept calls enabled and no reverts; a precompile that reports success to the EVM without applying its effects behaves the same in both runs and is not caught here",
  "C10": "victim portfolios = bank balances, ERC-20 balances, delegation shares, share allowances, queued withdrawals; the CALL-inside-static-frame hole of the go-ethereum fork is a recorded known finding",
  "C11": "reward amounts are not re-derived; reward bookkeeping is judged by the SDK's own distribution/staking/bank invariants run on a branch",
